@@ -58,7 +58,7 @@ def gen_luba_stream(r):
         k = r.choice(["raw", "cmd16", "cmd24", "edt+ext", "conf", "conf", "event-other", "event-err",
                       "devinfo", "settings", "txrsp", "known-unexpected", "unknown-type", "any-length",
                       "any-length", "bad-checksum", "truncated", "noise", "noise-Y", "payload-Y", "long-cmd",
-                      "malformed"])
+                      "malformed", "cmd-odd-info"])
         kinds.append(k)
         if k == "raw":
             segs.append(ev(2, 8, [r.randrange(256)]))
@@ -81,6 +81,12 @@ def gen_luba_stream(r):
             segs.append(ev(r.choice([1, 3]), r.randrange(64), [r.randrange(256) for _ in range(r.randrange(0, 4))]))
         elif k == "event-err":
             segs.append(ev(2, r.choice([0, 33, 40, 62, 63]), [r.randrange(256) for _ in range(r.randrange(0, 3))]))
+        elif k == "cmd-odd-info":
+            # the bit count in the status byte is only range-checked (1..32): the frame is what the data bytes hold -
+            # a 17- or 20-bit frame carried in three bytes, a 16-bit one in a three-byte field
+            nb = r.choice([2, 3, 3, 4])
+            segs.append(ev(2, r.choice([x for x in (1, 9, 12, 15, 16, 17, 20, 23, 24, 25, 31, 32) if x != 8 * nb]),
+                           [r.randrange(256) for _ in range(nb)]))
         elif k == "long-cmd":
             segs.append(ev(2, 32, [r.randrange(256) for _ in range(r.randrange(4, 7))]))
         elif k == "devinfo":
@@ -222,7 +228,7 @@ def _expect_cmd(bits, value, dt):
     return _norm_cmd(c)
 
 
-def feed(proto, stream, chunks, other=None):
+def feed(proto, stream, chunks, other=None, flush_at=None):
     """Returns (items per queue as dict, exceptions).  `other`: the byte stream of a second serial
     port whose receiver object is alive at the same time and gets its bytes in between."""
     cls = sermod.DriverLubaRs232.LubaProtocol if proto == "luba" else sermod.DriverSCIRS232.SCIRS232Protocol
@@ -232,12 +238,26 @@ def feed(proto, stream, chunks, other=None):
     excs = []
     pos = 0
     opos = 0
+    early = {"raw": [], "info": []}
     for c in chunks:
         try:
             p.data_received(stream[pos:c])
         except Exception as e:              # noqa: BLE001 - judged
             excs.append((pos, type(e).__name__, str(e)[:80], p._rx_state.name))
         pos = c
+        if flush_at is not None and pos >= flush_at:
+            # a send() of the application starts here: it flushes stale answers (what is queued is taken out
+            # first, so that the flush itself has nothing to remove) - reception goes on undisturbed
+            flush_at = None
+            while not p._queue_rx_raw_dali.empty():
+                early["raw"].append(p._queue_rx_raw_dali.get_nowait())
+            iq = p._queue_rx_luba_cmd if proto == "luba" else p._queue_rx_info
+            while not iq.empty():
+                early["info"].append(tuple(iq.get_nowait()))
+            try:
+                p.reset_dali_response()
+            except Exception as e:          # noqa: BLE001
+                excs.append((pos, type(e).__name__, "reset_dali_response: " + str(e)[:60], p._rx_state.name))
         if q is not None and opos < len(other):
             step = 1 + (c % 3)
             try:
@@ -245,7 +265,7 @@ def feed(proto, stream, chunks, other=None):
             except Exception:               # noqa: BLE001 - the other port is not what is judged
                 pass
             opos += step
-    out = {"raw": [], "cmd": [], "conf": [], "info": []}
+    out = {"raw": list(early["raw"]), "cmd": [], "conf": [], "info": list(early["info"])}
     while not p._queue_rx_raw_dali.empty():
         out["raw"].append(p._queue_rx_raw_dali.get_nowait())
     while not child.empty():
@@ -315,8 +335,11 @@ def run_plan(plan):
         results = {}
         o_stream, _k = (gen_luba_stream if proto == "luba" else gen_sci_stream)(plans.rng_for(plan["seed"], PROP + "-other-port"))
         chunkings["bytes+second-port"] = list(range(1, n + 1))
+        chunkings["bytes+flush"] = list(range(1, n + 1))
+        fl = plans.rng_for(plan["seed"], PROP + "-flush").randrange(1, max(2, len(body)))
         for name, chunks in chunkings.items():
-            got, excs = feed(proto, stream, chunks, other=bytes(o_stream) * 3 if name == "bytes+second-port" else None)
+            got, excs = feed(proto, stream, chunks, other=bytes(o_stream) * 3 if name == "bytes+second-port" else None,
+                             flush_at=fl if name == "bytes+flush" else None)
             results[name] = got
             log.add(0, "chunking", name, (len(chunks), len(excs)))
             if excs:
